@@ -1,9 +1,10 @@
 #!/bin/sh
-# usage: seedconfirm.sh <PROP> <N>  -- confirms a seeded change in its scratch worktree (tests pass, demo fails with it, passes without)
-P=$1; N=$2; WT=/tmp/wt-$P; SD=/tmp/seed-$P/$N
+# usage: seedconfirm.sh <PROP> <N> [batch]  -- confirms a seeded change in its scratch worktree (tests pass, demo fails with it, passes without)
+# batch "" -> /tmp/wt-<P>, /tmp/seed-<P>/<N>; batch 3 -> /tmp/wt3-<P>, /tmp/seed3-<P>/<N>
+P=$1; N=$2; B=$3; WT=/tmp/wt$B-$P; SD=/tmp/seed$B-$P/$N
 cd $WT && git checkout -q -- . && git apply $SD/patch.diff || { echo "APPLY-FAILED"; exit 1; }
 T=$(PYTHONPATH=$WT /venv/bin/python -m pytest -q -p no:cacheprovider 2>&1 | grep -E "passed|failed" | tail -1)
-PYTHONPATH=$WT /venv/bin/python $SD/demo.py >/dev/null 2>&1; D1=$?
+PYTHONPATH=$WT timeout 600 /venv/bin/python $SD/demo.py >/dev/null 2>&1; D1=$?
 git checkout -q -- .
-PYTHONPATH=$WT /venv/bin/python $SD/demo.py >/dev/null 2>&1; D0=$?
+PYTHONPATH=$WT timeout 600 /venv/bin/python $SD/demo.py >/dev/null 2>&1; D0=$?
 echo "$P/$N tests: $T | demo with change exit=$D1 | demo without exit=$D0"
